@@ -19,6 +19,15 @@ var (
 	c11Universe = []string{"a", "a.txt", "a-b", "a/b", "a/b/c", "a/c", "a0", "ab/", "b", "b/c"}
 	c11Prefixes = []string{"", "a", "a/", "a/b", "a.", "b", "c"}
 	c11Delims   = []string{"", "/", "b", "/b"}
+
+	// second universe: sibling DIRECTORIES whose names extend one another by a byte that sorts below '/'
+	// ('.', '-', '!', '+') or above it ('0'), on two levels, so that a walk ordering directories by their plain
+	// entry name (instead of name + "/") disagrees with the bytewise order of the object names.
+	c11Universe2 = []string{"d/v1/x", "d/v1/y", "d/v1.2/x", "d/v1-b/x", "d/v10/x", "d/v1/w/z", "d/v1/w.1/z", "d/v1!/x", "d/v1+c/x", "d0"}
+	c11Prefixes2 = []string{"", "d/", "d/v1", "d/v1.", "d/v1/", "d/v1/w", "e"}
+	c11Delims2   = []string{"", "/", "v1/", "."}
+	// components for tree-shaped random name sets
+	c11Comps = []string{"v1", "v1.2", "v1-b", "v10", "v1!", "v1+", "v1 x", "w", "w.1", "w-"}
 )
 
 const (
@@ -38,7 +47,7 @@ type c11Case struct {
 // C11: listing is complete, duplicate-free and ordered for any prefix / delimiter / page size.
 func runC11(run *common.Run) {
 	maxSize := run.N(4, 5)
-	run.Rule = fmt.Sprintf("sub-space 'exh' (enumerated COMPLETELY, exhaustive=true refers to it): every subset of size <= %d of the name universe %q (file store: the subsets representable as files) x prefixes %q x delimiters %q x maxResults 1..n+1 and unset x both stores, the token chain followed to its end (more than n+2 pages is a violation); 'rand': random larger subsets of the same universe, same queries; 'big' (thorough): random 12-name buckets over the alphabet {a,b,/,.,-,0} with prefixes/delimiters cut from the names. Oracle per pagination: concatenated items == model items, concatenated prefixes == model prefixes (each once, ascending), items+prefixes per page <= maxResults, every item's JSON == the metadata GET of that name; plus malformed tokens / maxResults => 400, missing bucket => 404. Case = one (name set, store). Non-trivial = at least one pagination of the case needed >= 2 pages and at least one listing returned a collapsed prefix; distinct by name set x store.", maxSize, c11Universe, c11Prefixes, c11Delims)
+	run.Rule = fmt.Sprintf("sub-space 'exh' (enumerated COMPLETELY, exhaustive=true refers to it): every subset of size <= %d of the name universe %q x prefixes %q x delimiters %q, and of the nested sibling-directory universe %q x prefixes %q x delimiters %q (file store: the subsets representable as files), x maxResults 1..n+1 and unset x both stores, the token chain followed to its end (more than n+2 pages is a violation); 'rand': random larger subsets of either universe and of their union, and tree-shaped sets (8 names of depth 2-3 built from directory components that extend one another: v1, v1.2, v1-b, v10, v1!, ...) with prefixes / delimiters cut from the names; 'big' (thorough): random 12-name buckets over the alphabet {a,b,/,.,-,0} with prefixes/delimiters cut from the names. Oracle per pagination: concatenated items == model items, concatenated prefixes == model prefixes (each once, ascending), items+prefixes per page <= maxResults, every item's JSON == the metadata GET of that name; plus malformed tokens / maxResults => 400, missing bucket => 404. Case = one (name set, store). Non-trivial = at least one pagination of the case needed >= 2 pages and at least one listing returned a collapsed prefix; distinct by name set x store.", maxSize, c11Universe, c11Prefixes, c11Delims, c11Universe2, c11Prefixes2, c11Delims2)
 	run.Assumptions = []string{
 		"listing model from the statement: bytewise ascending names, prefix filter, collapse at the first delimiter after the prefix",
 		"file store: only name sets representable as files (no name that is a directory of another, no trailing '/')",
@@ -55,9 +64,9 @@ func runC11(run *common.Run) {
 		}
 	}
 	sort.SliceStable(masks, func(a, b int) bool { return bits.OnesCount(uint(masks[a])) < bits.OnesCount(uint(masks[b])) })
-	subsetOf := func(m int) []string {
+	subsetOf := func(u []string, m int) []string {
 		var out []string
-		for i, n := range c11Universe {
+		for i, n := range u {
 			if m&(1<<i) != 0 {
 				out = append(out, n)
 			}
@@ -71,25 +80,68 @@ func runC11(run *common.Run) {
 		return false
 	}
 	skippedKF := 0
-	for i, m := range masks {
-		for s, store := range drive.Stores {
-			names := subsetOf(m)
-			if store == "file" && !setRepresentable(names) {
-				continue
+	type univ struct {
+		names, pfx, dlm []string
+	}
+	univs := []univ{{c11Universe, c11Prefixes, c11Delims}, {c11Universe2, c11Prefixes2, c11Delims2}}
+	for ui, u := range univs {
+		for i, m := range masks {
+			for s, store := range drive.Stores {
+				names := subsetOf(u.names, m)
+				if store == "file" && !setRepresentable(names) {
+					continue
+				}
+				if excluded(names, store) {
+					skippedKF++
+					continue
+				}
+				cases = append(cases, c11Case{"exh", (ui*len(masks)+i)*2 + s, store, names, u.pfx, u.dlm})
 			}
-			if excluded(names, store) {
-				skippedKF++
-				continue
-			}
-			cases = append(cases, c11Case{"exh", i*2 + s, store, names, c11Prefixes, c11Delims})
 		}
 	}
 	nExh := len(cases)
+	cutQueries := func(r *common.Rand, names []string) (pfx, dlm []string) {
+		pfx, dlm = []string{"", "d/"}, []string{"", "/"}
+		for q := 0; q < 5; q++ {
+			n := common.Pick(r, names)
+			pfx = append(pfx, n[:r.Intn(len(n)+1)])
+			a := r.Intn(len(n))
+			dlm = append(dlm, n[a:a+1+r.Intn(min(2, len(n)-a))])
+		}
+		return
+	}
 	for i, n := 0, run.N(300, 3000); i < n; i++ {
 		r := run.Rand("C11.rand", i)
-		k := r.Range(maxSize+1, len(c11Universe))
-		pool := append([]string(nil), c11Universe...)
-		common.Shuffle(r, pool)
+		var pool, pfx, dlm []string
+		switch i % 4 {
+		case 0:
+			pool, pfx, dlm = append([]string(nil), c11Universe...), c11Prefixes, c11Delims
+		case 1:
+			pool, pfx, dlm = append([]string(nil), c11Universe2...), c11Prefixes2, c11Delims2
+		case 2:
+			pool = append(append([]string(nil), c11Universe...), c11Universe2...)
+			pfx, dlm = append(append([]string(nil), c11Prefixes...), c11Prefixes2[1:]...), c11Delims
+		case 3:
+			// tree-shaped set: 8 names of depth 2-3 over components that extend one another
+			seen := map[string]bool{}
+			for len(pool) < 8 {
+				n := common.Pick(r, []string{"d", "d", "e"})
+				for l, k := 0, r.Range(1, 2); l < k; l++ {
+					n += "/" + common.Pick(r, c11Comps)
+				}
+				n += "/" + common.Pick(r, []string{"x", "y", "x.1", "x-"})
+				if !seen[n] {
+					seen[n] = true
+					pool = append(pool, n)
+				}
+			}
+			pfx, dlm = cutQueries(r, pool)
+		}
+		k := len(pool)
+		if i%4 != 3 {
+			k = r.Range(maxSize+1, min(len(pool), 10))
+			common.Shuffle(r, pool)
+		}
 		for s, store := range drive.Stores {
 			names := append([]string(nil), pool[:k]...)
 			if store == "file" {
@@ -99,7 +151,7 @@ func runC11(run *common.Run) {
 				skippedKF++
 				continue
 			}
-			cases = append(cases, c11Case{"rand", i*2 + s, store, names, c11Prefixes, c11Delims})
+			cases = append(cases, c11Case{"rand", i*2 + s, store, names, pfx, dlm})
 		}
 	}
 	if run.IsThorough() {
@@ -175,7 +227,7 @@ func runC11(run *common.Run) {
 	})
 	if run.Replay == nil && !aborted.Load() {
 		run.Exhaustive = true
-		run.Set("exhaustive_subspace", fmt.Sprintf("exh: %d (name set, store) cases = all subsets of size <= %d of the 10-name universe on the memory store and all file-representable ones on the file store, each with all %d prefix x delimiter pairs and maxResults 1..n+1 + unset; rand/big are sampling", nExh, maxSize, len(c11Prefixes)*len(c11Delims)))
+		run.Set("exhaustive_subspace", fmt.Sprintf("exh: %d (name set, store) cases = all subsets of size <= %d of each of the two 10-name universes on the memory store and all file-representable ones on the file store, each with all %d prefix x delimiter pairs and maxResults 1..n+1 + unset; rand/big are sampling", nExh, maxSize, len(c11Prefixes)*len(c11Delims)))
 	}
 }
 
